@@ -6,8 +6,9 @@ Import ListNotations.
 Definition rid := nat.          (* interned resource id (as the client wrote it) *)
 Definition conn := nat.         (* connection label c0, c1, ... *)
 
-(* a resource id with a query is interned as 10000 + 100*N + K (resource N, query number K); base_of gives N *)
-Definition base_of (r : rid) : rid := if Nat.leb 10000 r then (r - 10000) / 100 else r.
+(* a resource id with a query is interned as 200 + 10*N + K (resource N < 80, query number K < 10); base_of gives N.
+   Plain resources are numbered below 200, other ids from 1000. *)
+Definition base_of (r : rid) : rid := if Nat.leb 200 r && Nat.ltb r 1000 then (r - 200) / 10 else r.
 
 (* values as a client sees them in frames *)
 Inductive cvalue :=
